@@ -12,8 +12,15 @@
 //!   c17 files <out>                              head x body x tail [FileAt], all
 //!   c17 long <samples> <maxchars> <out>          unit^count + window [LongAt]: sampled, texts of at most maxchars characters
 //!   c17 long-one <idx>                           print the record of one long text (replay)
+//! round 3 (same conventions; every Int / Float token also carries its value `val` as a string):
+//!   c17 actx <out>                               context x every 7-bit character x context [ACtxAt], all
+//!   c17 apair <exh-contexts> <samples> <out>     every pair of 7-bit characters in a context [APairAt]
+//!   c17 bigint <exh-contexts> <samples> <out>    digit runs around 2^k / 10^k, leading zeros, in context [BigAt]
+//!   c17 floatlim <exh-contexts> <samples> <out>  float forms at the limits of the double range [FloatLimAt]
+//!   c17 longnum <out>                            digit runs of 19..310 digits in every number form [LongNumAt], all
 //! Set C17_STUB=line1 to replace the tokenizer's lines by a deliberately wrong line counter, C17_STUB=bom to drop a
-//! leading byte-order mark before the tokenizer sees the text (negative controls: TLC must reject).
+//! leading byte-order mark before the tokenizer sees the text, C17_STUB=narrow to pass the values of number tokens through
+//! 32-bit types (negative controls: TLC must reject).
 
 use rand::{Rng, SeedableRng};
 use serde_json::{json, Value};
@@ -89,6 +96,53 @@ const FBODIES: &[&str] = &[
 const FTAILS: &[&str] = &[
     "", "\n", "\n\n\n", "\r", "\r\n", " ", "\t", "\u{feff}", "\u{0}", "\n\u{feff}", "// c", "\"", "\n\r", "\u{1a}",
 ];
+
+/// Trace_Lex!APre, APost (round 3); the character between them is the REAL 7-bit character of the code
+const APRE: &[&str] = &["", "e", "1", "e ", "e\n", "+", "\"a", "// c", "\"a\nb\" ", "e\n\n1 "];
+const APOST: &[&str] =
+    &["", "\n", "\r\n", "1", "e", "\ne", "\r\ne 1", "\n1 e\n\"a\"\n", " \n", "\"\ne 1", "\n\n", "\n// c\ne"];
+/// Trace_Lex!APairCtx
+const APAIRCTX: &[(&str, &str)] = &[("e ", "\ne 1"), ("", ""), ("\"", "\"\ne"), ("//", "\ne")];
+
+/// Trace_Lex!BigTwoExps, BigTenExps, BigZeros, BigPre, BigPost
+const BIG_TWO: &[u32] = &[7, 8, 15, 16, 31, 32, 53, 62, 63, 64, 65, 127, 128];
+const BIG_TEN: &[usize] = &[9, 10, 15, 16, 17, 18, 19, 20, 21, 38, 39];
+const BIG_VARS: usize = 10;
+const BIG_ZEROS: &[&str] = &["", "0", "00", "00000000000000000000"];
+const BIG_PRE: &[&str] = &["", "-", "x = ", "e\n", "("];
+const BIG_POST: &[&str] = &["", "\n", " x", ")", ".", ".5", "e5", "e-5", "x", "e", "\n1", ".."];
+
+/// Trace_Lex!FlInts, FlTails (the 41-character entries are built in fl_ints / fl_tails), FlPre, FlPost
+const FL_PRE: &[&str] = &["", "-", "x = ", "\n"];
+const FL_POST: &[&str] = &["", "\n", " x", ")"];
+fn fl_ints() -> Vec<String> {
+    let mut v: Vec<String> = [
+        "", "0", "1", "9", "00001", "10000", "123456789012345", "1234567890123456", "17976931348623157",
+        "17976931348623158", "17976931348623159", "24703282292062327", "24703282292062328", "4940656458412465",
+        "22250738585072014",
+    ]
+    .iter()
+    .map(|s| s.to_string())
+    .collect();
+    v.push("9".repeat(40));
+    v.push(format!("1{}", "0".repeat(40)));
+    v
+}
+fn fl_tails() -> Vec<String> {
+    let mut v: Vec<String> = ["", ".", ".0", ".5", ".25", ".000001"].iter().map(|s| s.to_string()).collect();
+    v.push(format!(".{}1", "0".repeat(40)));
+    v.push(format!(".{}", "9".repeat(40)));
+    for s in [
+        ".5.", ".5e3", "..", ".e5", "e0", "e1", "e+1", "e-1", "e15", "e22", "e23", "e-22", "e291", "e292", "e293", "e-300",
+        "e-301", "e300", "e301", "e307", "e308", "e309", "e+308", "e+309", "e-308", "e-323", "e-324", "e-325", "e-339",
+        "e-340", "e-341", "e400", "e-400", "e-707", "e-708", "e-724", "e-725", "e", "e+", "e-", "e99999999999999999999",
+        "e-99999999999999999999", "e00000000000000000308", "e-00000000000000000324", "E308", "e+-1", "e308e1", "e308.5",
+        "e1x", "e 1",
+    ] {
+        v.push(s.to_string());
+    }
+    v
+}
 
 /// Trace_Lex!LUnits, LCounts, LWindows
 const LUNITS: &[&str] = &["\n", "e\n", "\r\n", " ", "e ", "\t", "\"\u{e9}\" ", "//\u{e9}\n", "\"\n\" ", "e \"a\nb\"\n"];
@@ -248,10 +302,27 @@ fn tok_records(text: &str) -> Vec<Value> {
     // a panic of the tokenizer is data: one pseudo token of kind "panic", which no specification token equals
     let toks = match std::panic::catch_unwind(|| string_to_tokens(0, text)) {
         Ok(t) => t,
-        Err(_) => return vec![json!({"k":"panic","txt":"","line":0,"lend":0,"cs":0,"ce":0})],
+        Err(_) => return vec![json!({"k":"panic","txt":"","val":"","line":0,"lend":0,"cs":0,"ce":0})],
     };
     let mut out = Vec::new();
     for pt in toks.iter() {
+        // the value of a number token, as a string (the specification compares strings): an Int in decimal, a Float
+        // in the shortest scientific form that reads back as the same double
+        // negative control "narrow": a tokenizer whose number values went through 32-bit types
+        let narrow = stub.as_deref() == Some("narrow");
+        let token = match &pt.token {
+            Token::Int(i) if narrow => Token::Int(*i as i32 as i64),
+            Token::Float(f) if narrow => Token::Float(*f as f32 as f64),
+            t => t.clone(),
+        };
+        let val: String = match &token {
+            Token::Int(i) => i.to_string(),
+            Token::Float(f) if f.is_nan() => "nan".into(),
+            Token::Float(f) if f.is_infinite() => (if *f > 0.0 { "inf" } else { "-inf" }).into(),
+            Token::Float(f) if *f == 0.0 => (if f.is_sign_negative() { "-0e0" } else { "0e0" }).into(),
+            Token::Float(f) => format!("{:e}", f),
+            _ => String::new(),
+        };
         let (k, txt): (&str, String) = match &pt.token {
             Token::Identifier(s) => ("id", s.clone()),
             Token::String(s) => ("str", format!("\"{}\"", s)),
@@ -273,7 +344,7 @@ fn tok_records(text: &str) -> Vec<Value> {
         if stub.as_deref() == Some("line1") {
             line = 1; // negative control: a tokenizer that never counts lines
         }
-        out.push(json!({"k":k,"txt":abs(&txt),"line":line,"lend":pt.span.line_end,
+        out.push(json!({"k":k,"txt":abs(&txt),"val":val,"line":line,"lend":pt.span.line_end,
                         "cs":pt.span.col_start,"ce":pt.span.col_end}));
     }
     out
@@ -370,6 +441,161 @@ fn file_at(idx: usize) -> String {
     format!("{}{}{}", FHEADS[h], FBODIES[b], FTAILS[tl])
 }
 
+fn ascii_char(code: usize) -> char {
+    char::from(code as u8)
+}
+
+fn actx_at(idx: usize) -> String {
+    let m = idx - 1;
+    let po = m % APOST.len();
+    let c = (m / APOST.len()) % 128;
+    let pr = m / (APOST.len() * 128);
+    format!("{}{}{}", APRE[pr], ascii_char(c), APOST[po])
+}
+
+fn apair_at(idx: usize) -> String {
+    let m = idx - 1;
+    let c2 = m % 128;
+    let c1 = (m / 128) % 128;
+    let cx = m / (128 * 128);
+    format!("{}{}{}{}", APAIRCTX[cx].0, ascii_char(c1), ascii_char(c2), APAIRCTX[cx].1)
+}
+
+/// decimal arithmetic on digit strings (Trace_Lex!LxDouble, LxPlus, LxMinus), written independently: digit vectors
+fn dec_digits(s: &str) -> Vec<u8> {
+    s.bytes().map(|b| b - b'0').collect()
+}
+fn dec_string(d: &[u8]) -> String {
+    d.iter().map(|x| (b'0' + x) as char).collect()
+}
+fn dec_double(s: &str) -> String {
+    let mut d = dec_digits(s);
+    let mut carry = 0u8;
+    for x in d.iter_mut().rev() {
+        let v = *x * 2 + carry;
+        *x = v % 10;
+        carry = v / 10;
+    }
+    if carry > 0 {
+        d.insert(0, carry);
+    }
+    dec_string(&d)
+}
+fn dec_plus(s: &str, a: u8) -> String {
+    let mut d = dec_digits(s);
+    let mut carry = a;
+    for x in d.iter_mut().rev() {
+        let v = *x + carry;
+        *x = v % 10;
+        carry = v / 10;
+    }
+    if carry > 0 {
+        d.insert(0, carry);
+    }
+    dec_string(&d)
+}
+fn dec_minus(s: &str, a: u8) -> String {
+    let mut d = dec_digits(s);
+    let mut borrow = a as i8;
+    for x in d.iter_mut().rev() {
+        let v = *x as i8 - borrow;
+        if v >= 0 {
+            *x = v as u8;
+            borrow = 0;
+        } else {
+            *x = (v + 10) as u8;
+            borrow = 1;
+        }
+    }
+    let t = dec_string(&d);
+    t.trim_start_matches('0').to_string()
+}
+fn big_base(b: usize) -> String {
+    if b < BIG_TWO.len() {
+        let mut s = "1".to_string();
+        for _ in 0..BIG_TWO[b] {
+            s = dec_double(&s);
+        }
+        s
+    } else {
+        format!("1{}", "0".repeat(BIG_TEN[b - BIG_TWO.len()]))
+    }
+}
+fn big_var(s: &str, v: usize) -> String {
+    let first = s.as_bytes()[0];
+    match v {
+        0 => s.to_string(),
+        1 => dec_plus(s, 1),
+        2 => dec_minus(s, 1),
+        3 => dec_plus(s, 2),
+        4 => dec_minus(s, 2),
+        5 => s[..s.len() - 1].to_string(),
+        6 => format!("{}0", s),
+        7 => format!("{}9", s),
+        8 => {
+            if first == b'9' {
+                s.to_string()
+            } else {
+                format!("{}{}", (first + 1) as char, &s[1..])
+            }
+        }
+        _ => {
+            if first == b'1' {
+                s.to_string()
+            } else {
+                format!("{}{}", (first - 1) as char, &s[1..])
+            }
+        }
+    }
+}
+fn big_block() -> usize {
+    (BIG_TWO.len() + BIG_TEN.len()) * BIG_VARS * BIG_ZEROS.len()
+}
+fn big_at(idx: usize) -> String {
+    let bases = BIG_TWO.len() + BIG_TEN.len();
+    let m = idx - 1;
+    let b = m % bases;
+    let v = (m / bases) % BIG_VARS;
+    let z = (m / (bases * BIG_VARS)) % BIG_ZEROS.len();
+    let cx = m / big_block();
+    let pr = cx % BIG_PRE.len();
+    let po = cx / BIG_PRE.len();
+    format!("{}{}{}{}", BIG_PRE[pr], BIG_ZEROS[z], big_var(&big_base(b), v), BIG_POST[po])
+}
+
+fn floatlim_at(idx: usize, ints: &[String], tails: &[String]) -> String {
+    let m = idx - 1;
+    let i = m % ints.len();
+    let tl = (m / ints.len()) % tails.len();
+    let cx = m / (ints.len() * tails.len());
+    let pr = cx % FL_PRE.len();
+    let po = cx / FL_PRE.len();
+    format!("{}{}{}{}", FL_PRE[pr], ints[i], tails[tl], FL_POST[po])
+}
+
+/// Trace_Lex!LnLens, LnDigits, LnForm
+const LN_LENS: &[usize] = &[19, 20, 40, 308, 309, 310];
+fn longnum_at(idx: usize) -> String {
+    let m = idx - 1;
+    let f = m % 7;
+    let sh = (m / 7) % 3;
+    let l = LN_LENS[m / 21];
+    let d = match sh {
+        0 => format!("1{}", "0".repeat(l - 1)),
+        1 => "9".repeat(l),
+        _ => format!("{}1", "0".repeat(l - 1)),
+    };
+    match f {
+        0 => d,
+        1 => format!("{}.", d),
+        2 => format!(".{}", d),
+        3 => format!("{}e0", d),
+        4 => format!("{}e-400", d),
+        5 => format!("1e{}", d),
+        _ => format!("1e-{}", d),
+    }
+}
+
 fn long_parts(idx: usize) -> (&'static str, usize, &'static str) {
     let m = idx - 1;
     let w = m % LWINDOWS.len();
@@ -426,7 +652,7 @@ fn frag_at(idx: usize) -> String {
 fn main() {
     let args: Vec<String> = std::env::args().collect();
     if args.len() < 3 {
-        tool_error("usage: c17 strings|frags|free|one|ustrings|numgram|numctx|uctx|files|long|long-one ...");
+        tool_error("usage: c17 strings|frags|free|one|ustrings|numgram|numctx|uctx|files|long|long-one|actx|apair|bigint|floatlim|longnum ...");
     }
     selfcheck();
     std::panic::set_hook(Box::new(|_| {})); // panics of the tokenizer are recorded, not printed
@@ -465,6 +691,42 @@ fn main() {
             let n = FHEADS.len() * FBODIES.len() * FTAILS.len();
             let idx: Vec<usize> = (1..=n).collect();
             emit(&args[2], &idx, n, file_at);
+        }
+        "actx" => {
+            let n = APRE.len() * 128 * APOST.len();
+            let idx: Vec<usize> = (1..=n).collect();
+            emit(&args[2], &idx, n, actx_at);
+        }
+        "apair" => {
+            let exhc: usize = args[2].parse().unwrap();
+            let samples: usize = args[3].parse().unwrap();
+            let exh = exhc * 128 * 128;
+            let upto = APAIRCTX.len() * 128 * 128;
+            let idx = exh_then_samples(exh, upto, samples, 0xA9A1);
+            emit(&args[4], &idx, exh, apair_at);
+        }
+        "bigint" => {
+            let exhc: usize = args[2].parse().unwrap();
+            let samples: usize = args[3].parse().unwrap();
+            let exh = exhc * big_block();
+            let upto = big_block() * BIG_PRE.len() * BIG_POST.len();
+            let idx = exh_then_samples(exh, upto, samples, 0xB161);
+            emit(&args[4], &idx, exh, big_at);
+        }
+        "floatlim" => {
+            let exhc: usize = args[2].parse().unwrap();
+            let samples: usize = args[3].parse().unwrap();
+            let (ints, tails) = (fl_ints(), fl_tails());
+            let block = ints.len() * tails.len();
+            let exh = exhc * block;
+            let upto = block * FL_PRE.len() * FL_POST.len();
+            let idx = exh_then_samples(exh, upto, samples, 0xF107);
+            emit(&args[4], &idx, exh, |i| floatlim_at(i, &ints, &tails));
+        }
+        "longnum" => {
+            let n = LN_LENS.len() * 3 * 7;
+            let idx: Vec<usize> = (1..=n).collect();
+            emit(&args[2], &idx, n, longnum_at);
         }
         "long" => {
             let samples: usize = args[2].parse().unwrap();
